@@ -224,6 +224,7 @@ var unmarshallRows = map[string]string{
 	"target":            "the value is decoded through reflectx.SetValue on the property's own Value, into the pointer SetValue supplies, and the decoder is fed Unmarshall's parameter itself",
 	"config":            "decoder configuration: weakly typed input, tag name yaml (or the mapper argument), no zeroing of fields, no squashing, no unused / unset key errors",
 	"error":             "a decoder construction or decoding error becomes a non-nil return; otherwise the result is nil",
+	"hooks":             "decode hooks: durations are parsed from text; a timeLayout argument's hook is present exactly when the argument is, and no hook that converts text to time.Time with another layout (another layout hook, the text-unmarshaller hook) runs before it",
 }
 
 // c17Decoder: decision table of Property.Unmarshall with whatever helpers it is split into; mapstructure and
@@ -295,9 +296,28 @@ func c17Decoder(c *core.Ctx, r *core.Report, unm *ssa.Function) {
 							}
 							return absint.Nil{}
 						}
-						for _, h := range []string{"StringToTimeDurationHookFunc", "StringToTimeHookFunc", "ComposeDecodeHookFunc", "StringToSliceHookFunc", "TextUnmarshallerHookFunc"} {
+						for _, h := range []string{"StringToTimeDurationHookFunc", "StringToTimeHookFunc", "StringToSliceHookFunc", "TextUnmarshallerHookFunc", "StringToIPHookFunc", "StringToIPNetHookFunc", "RecursiveStructToMapHookFunc"} {
 							h := h
-							t.ext["github.com/mitchellh/mapstructure."+h] = func(ip *absint.Interp, a []absint.Value) absint.Value { return absint.NewTok("hook:"+h, "hook") }
+							t.ext["github.com/mitchellh/mapstructure."+h] = func(ip *absint.Interp, a []absint.Value) absint.Value {
+								id := strings.TrimSuffix(h, "HookFunc")
+								if len(a) > 0 {
+									id += "(" + absint.Show(a[0]) + ")"
+								}
+								return absint.NewTok(id, "hook")
+							}
+						}
+						t.ext["github.com/mitchellh/mapstructure.ComposeDecodeHookFunc"] = func(ip *absint.Interp, a []absint.Value) absint.Value {
+							comp := absint.NewTok("composed", "hook")
+							var ids []string
+							if l, ok := a[0].(*absint.List); ok {
+								for _, e := range l.Elems {
+									ids = append(ids, absint.Show(e))
+								}
+							} else {
+								panic(&absint.Undecided{Msg: "ComposeDecodeHookFunc on an unmodelled hook list"})
+							}
+							comp.Attr["hooks"] = absint.Str(strings.Join(ids, " ; "))
+							return comp
 						}
 						var in absint.Value = absint.NewTok("configValue", "any")
 						if nilValue {
@@ -359,6 +379,46 @@ func c17Decoder(c *core.Ctx, r *core.Report, unm *ssa.Function) {
 							}
 							if bad != "" {
 								rs.fail("config", w+" decoder configuration:"+bad)
+							}
+							// the hook chain: hooks run in list order and the first one that converts wins
+							rs.hit("hooks")
+							hooks, known := "", false
+							if h, ok := cfg.Fields["DecodeHook"].(*absint.Tok); ok {
+								if s, ok := h.Attr["hooks"].(absint.Str); ok {
+									hooks, known = string(s), true
+								} else {
+									hooks, known = h.ID, true // a single hook, not composed
+								}
+							}
+							var list []string
+							if hooks != "" {
+								list = strings.Split(hooks, " ; ")
+							}
+							hasDur, layoutAt, timeBefore := false, -1, ""
+							for i, h := range list {
+								switch {
+								case h == "StringToTimeDuration":
+									hasDur = true
+								case h == `StringToTime("2006")`:
+									if layoutAt < 0 {
+										layoutAt = i
+									}
+								case strings.HasPrefix(h, "StringToTime(") || h == "TextUnmarshaller":
+									// converts text to time.Time as well (time.Time is a TextUnmarshaler reading RFC 3339)
+									if layoutAt < 0 {
+										timeBefore = h
+									}
+								}
+							}
+							switch {
+							case !known:
+								rs.fail("hooks", w+" DecodeHook is not set to a (composed) mapstructure hook")
+							case !hasDur:
+								rs.fail("hooks", w+" hooks=["+hooks+"]: no duration hook")
+							case layout && (layoutAt < 0 || timeBefore != ""):
+								rs.fail("hooks", w+" hooks=["+hooks+"]: the timeLayout argument's hook is missing or preceded by "+timeBefore+", which converts dates with its own layout first")
+							case !layout && layoutAt >= 0:
+								rs.fail("hooks", w+" hooks=["+hooks+"]: a layout hook without a timeLayout argument")
 							}
 						}
 					}
